@@ -36,7 +36,7 @@ FALSE = ('lit', 'False', False)
 
 class Gen:
     def __init__(self, rng, schema=None, aliases=(), max_depth=4, funs=True, quants=True, consts=True,
-                 floats=True, opaque=True, small=False, unique_vars=False, var_pool=None):
+                 floats=True, opaque=True, small=False, unique_vars=False, var_pool=None, alias_schemas=None):
         self.rng = rng
         self.schema = schema or DEFAULT_SCHEMA
         self.aliases = list(aliases)
@@ -50,15 +50,16 @@ class Gen:
         self._fresh = 0
         self.unique_vars = unique_vars      # never reuse a quantified variable name, not even in sibling quantifiers
         self._used = set()
+        self.alias_schemas = alias_schemas or {}     # alias -> schema of the aliased event's message (default: the own schema)
         self.var_pool = var_pool or ['i', 'j', 'k', 'v', 'w']
 
     # ---- references ------------------------------------------------------------------------------------
     def paths(self, want, bound):
         """all reference Raws of type `want` reachable in the schema (own message and aliases) plus bound variables"""
         out = []
-        roots = [('this',)] + [('var', a) for a in self.aliases]
-        for root in roots:
-            self._paths(root, self.schema, want, out, 0)
+        self._paths(('this',), self.schema, want, out, 0)
+        for a in self.aliases:
+            self._paths(('var', a), self.alias_schemas.get(a, self.schema), want, out, 0)
         for name, t in bound.items():
             if t == want:
                 out.append(('var', name))
@@ -91,9 +92,12 @@ class Gen:
         r = self.rng.random()
         if r < 0.6:
             return int_lit(self.rng.randrange(0, 4))
+        nums = [n for n, t in self.schema.items() if t == NUM]
+        if not nums:
+            return int_lit(self.rng.randrange(0, 4))
         if r < 0.8:
-            return ('field', ('this',), 'x')
-        return ('bin', '+', ('field', ('this',), 'y'), int_lit(1))
+            return ('field', ('this',), 'x' if 'x' in nums else self.rng.choice(nums))
+        return ('bin', '+', ('field', ('this',), 'y' if 'y' in nums else self.rng.choice(nums)), int_lit(1))
 
     def ref(self, want, bound):
         ps = self.paths(want, bound)
